@@ -50,6 +50,7 @@ type azToken struct {
 	Root     bool     `json:"r,omitempty"`
 	Entity   string   `json:"e,omitempty"`
 	CIDR     bool     `json:"c,omitempty"` // bound to 10.0.0.0/8
+	Parent   string   `json:"pa,omitempty"` // batch token: lives only as long as this token does
 }
 
 type azState struct {
@@ -146,6 +147,9 @@ func azTokenLive(st azState, in azIn) bool {
 		return false
 	}
 	if st.Revoked[t.Name] || (t.Entity != "" && st.Disabled[t.Entity]) {
+		return false
+	}
+	if t.Parent != "" && st.Revoked[t.Parent] {
 		return false
 	}
 	if t.CIDR && !strings.HasPrefix(in.Remote, "10.") {
@@ -409,7 +413,25 @@ func runC02(rc *RunCtx) {
 	}
 	mk("t-plain", map[string]any{}, "auth/token/create")
 	mk("t-plain2", map[string]any{}, "auth/token/create")
-	mk("t-victim", map[string]any{}, "auth/token/create") // revoked by a mutator
+	// t-victim is revoked by a mutator; next to its grammar policies it may
+	// create tokens, and has created a batch token, which is only as alive as
+	// its parent (a batch token has no entry of its own to revoke)
+	if _, err := h.RootWrite("sys/policies/acl/mint", map[string]any{"policy": `path "auth/token/create" { capabilities = ["update"] }`}); err != nil {
+		panic(err)
+	}
+	victim := mk("t-victim", map[string]any{}, "auth/token/create")
+	{
+		r, err := h.Do("setup", Req{Op: logical.UpdateOperation, Path: "auth/token/create", Token: h.Root, Data: map[string]any{"id": "", "policies": append(append([]string{}, victim.az.Policies...), "mint"), "no_default_policy": true, "ttl": "1h"}})
+		if err != nil || r == nil || r.Auth == nil {
+			panic(fmt.Sprint("victim token: ", err, r))
+		}
+		victim.id, victim.raw = r.Auth.ClientToken, r.Auth.ClientToken
+		br, err := h.Do("setup", Req{Op: logical.UpdateOperation, Path: "auth/token/create", Token: victim.id, Data: map[string]any{"type": "batch", "policies": victim.az.Policies, "no_default_policy": true, "ttl": "1h"}})
+		if err != nil || br == nil || br.Auth == nil {
+			panic(fmt.Sprint("batch child of victim: ", err, br))
+		}
+		toks = append(toks, &liveTok{az: &azToken{Name: "t-batch-of-victim", Policies: victim.az.Policies, Parent: "t-victim"}, id: br.Auth.ClientToken, raw: br.Auth.ClientToken})
+	}
 	short := mk("t-short", map[string]any{"ttl": "30s"}, "auth/token/create")
 	// (not part of the race: used by the renewal epilogue)
 	renewTok := mk("t-renew", map[string]any{"ttl": "20m"}, "auth/token/create")
